@@ -30,14 +30,18 @@ Sigs == {<<"(LB;)V", "(LA;)V">>, <<"(Ljava/lang/Object;)V", "(LA;)V">>, <<"(LA;)
          <<"(LB;)V", "(LS;)V">>}      \* S extends a class outside the jars: not provably unrelated to B
 AccVariants == {{"synthetic", "bridge"}, {"synthetic"}, {"synthetic", "private"}, {"synthetic", "static"}, {"synthetic", "final"},
                 {"bridge"}, {}, {"synthetic", "bridge", "static"}}
-CallVariants == {"none", "delegate", "two", "base", "nocode", "outside"}
-TypeHomes == {"main", "lib", "nowhere", "onlyA"}
+CallVariants == {"none", "delegate", "two", "ctor", "base", "nocode", "outside"}
+TypeHomes == {"main", "lib", "nowhere", "onlyA", "diamond"}
 
 TypeClasses == ("A" :> Cls("B", <<>>, <<>>)) @@ ("B" :> Cls(OBJECT, <<>>, <<>>)) @@ ("S" :> Cls("ext/Outside", <<>>, <<>>))
+(* A reaches B over a repeated interface: A extends Mid, Mid implements K and J, J extends K and B (all in the main jar) *)
+DiamondClasses == ("A" :> Cls("Mid", <<>>, <<>>)) @@ ("Mid" :> Cls(OBJECT, <<"K", "J">>, <<>>)) @@ ("J" :> Cls(OBJECT, <<"K", "B">>, <<>>))
+                  @@ ("K" :> Cls(OBJECT, <<>>, <<>>)) @@ ("B" :> Cls(OBJECT, <<>>, <<>>))
 CallsOf(v, sig) ==
     CASE v = "none" -> {}
       [] v = "delegate" -> {<<"Sub", "t", sig[2]>>}
       [] v = "two" -> {<<"Sub", "t", sig[2]>>, <<"Sub", "u", "()V">>}
+      [] v = "ctor" -> {<<"Sub", "t", sig[2]>>, <<"Box", "<init>", "()V">>}      \* wraps the result: a constructor call is a call
       [] v = "base" -> {<<"Base", "t", sig[2]>>}
       [] v = "outside" -> {<<"java/util/List", "size", "()I">>}
       [] v = "nocode" -> {}
@@ -51,7 +55,8 @@ PickJar ==
                    @@ ("Sub" :> Cls("Base", <<"Itf">>, <<Meth("br", sig[1], acc, cv # "nocode", CallsOf(cv, sig)),
                                                          Meth("t", sig[2], {}, TRUE, {}),
                                                          Meth("u", "()V", {"synthetic"}, TRUE, {})>>))
-                   @@ (IF home = "main" THEN TypeClasses ELSE IF home = "onlyA" THEN ("A" :> Cls("B", <<>>, <<>>)) ELSE <<>>)
+                   @@ (IF home = "main" THEN TypeClasses ELSE IF home = "onlyA" THEN ("A" :> Cls("B", <<>>, <<>>))
+                       ELSE IF home = "diamond" THEN DiamondClasses ELSE <<>>)
         /\ libs' = ("Itf" :> Cls(OBJECT, <<>>, <<>>)) @@ (IF home = "lib" THEN TypeClasses ELSE <<>>)
         /\ tag' = [sig |-> sig, acc |-> acc, cv |-> cv, home |-> home]
     /\ phase' = "jar" /\ UNCHANGED <<cal, named>>
@@ -89,6 +94,7 @@ PickMaps ==
                         \cup {Class(<<"Unrelated", "n/U">>, <<>>, MapOf({Method(<<it, "x">>, isig2, <<>>, <<>>)}))}))
            /\ tag' = [tag EXCEPT !.sig = @] @@ [ren |-> ren, where |-> where, existing |-> existing, hasclass |-> hasclass]
     /\ (Tier = 0 => (tag.home \in {"main", "nowhere"} \/ tag.cv = "delegate"))
+    /\ (tag.home = "diamond" => tag.cv = "delegate" /\ tag.acc \in {{"synthetic"}, {"synthetic", "bridge"}, {"synthetic", "final"}})
     /\ phase' = "case" /\ UNCHANGED <<main, libs>>
 Next == PickJar \/ PickMaps
 Spec == Init /\ [][Next]_vars
@@ -100,7 +106,7 @@ InvPredicate ==
     phase = "case" =>
         LET q == Bridges(main) # {}
         IN /\ ("synthetic" \notin tag.acc => ~q)
-           /\ (tag.cv \in {"none", "two", "nocode"} => ~q)
+           /\ (tag.cv \in {"none", "two", "ctor", "nocode"} => ~q)
            /\ ({"synthetic", "bridge"} \subseteq tag.acc /\ tag.cv \in {"delegate", "base", "outside"} => q)
 
 Emit ==
